@@ -7,8 +7,8 @@
      `sduration ns` its duration; `seval env` evaluates one symbolic entry under a setting.
    * `mp_le a b` = decidable sufficient order (every member of a is dominated by a member of b, where "dominated" may use
      R, M, F, S, W >= 0 and 2W + M >= R).
-   * `cert_no_overlap ns` = every channel-sharing pair of the symbolic listing is ordered by mp_le (or both provably have
-     no length).
+   * `cert_no_overlap ns` = every channel-sharing pair of the symbolic listing is ordered by mp_le, or both provably have
+     no length, or one provably has no length and neither is a Barrier; `cert_strict ns` = the same without the last case.
    * admissible setting: `env_nonneg env` (R, M, F, S >= 0) and `env_parity env` ((R - M) mod 2 = 0 in ticks of 1/8: true
      for durations that are multiples of 0.25, it makes the wait 0.5 (R - M) exact).
    * `no_overlap` (Lib.Run) = clause 1 of the property, `barrier_clear` (C10.Run) = clause 2 including zero-length
@@ -50,6 +50,13 @@ Theorem C10_certified : forall ns, cert_no_overlap ns = true -> forall env, env_
   no_overlap (o_ops (model_obs env ns)) = true /\ barrier_clear (o_ops (model_obs env ns)) = true.
 Proof. exact certified. Qed.
 Print Assumptions C10_certified.
+
+(* the strict certificate (reported by the check, not part of the tie) gives the strongest form: no channel-sharing pair at
+   all, operations without length included, has intersecting open intervals *)
+Theorem C10_certified_strict : forall ns, cert_strict ns = true -> forall env, env_nonneg env -> env_parity env ->
+  no_overlap_strict (o_ops (model_obs env ns)) = true.
+Proof. exact certified_strict'. Qed.
+Print Assumptions C10_certified_strict.
 
 (* unrolling never consults a duration, so the unrolled graph is the same under every setting ... *)
 Theorem C10_apply_modifiers_setting_independent : forall e1 e2 reps ns, apply_modifiers e1 reps ns = apply_modifiers e2 reps ns.
